@@ -1,5 +1,6 @@
 import SeataModel.Driver.Util
 import SeataModel.AT.Atomic
+import SeataModel.AT.Conn
 namespace Seata.Driver.C02
 open Seata.AT.Atomic Seata.Driver
 
@@ -16,7 +17,17 @@ def showEv : Ev → String
     | .begin => "B!" | .sel => "q!" | .biz => "x!" | .register => "g!" | .undo => "u!" | .commit => "C!" | .rollback => "R!"
     | _ => "?!"
 
-/-- `p1 <fault: none|db:k|reg:refused|reg:transport> <lost> <clean tokens…>` -/
+/-- `s:<g>:<beginFails>` a statement, `b:<g>:<fails>` BeginTx, `e` tx.Commit / tx.Rollback (g: the call's context
+    carries the global transaction) -/
+def parseConnOp (t : String) : Option Seata.AT.Conn.Op :=
+  let bit (x : String) : Option Bool := if x == "1" then some true else if x == "0" then some false else none
+  match t.splitOn ":" with
+  | ["e"] => some .end_
+  | ["s", g, f] => match bit g, bit f with | some g, some f => some (.stmt g f) | _, _ => none
+  | ["b", g, f] => match bit g, bit f with | some g, some f => some (.begin g f) | _, _ => none
+  | _ => none
+
+/-- `p1 <fault: none|db:k|reg:refused|reg:transport> <lost> <clean tokens…>` ; `atconn <op>…` -/
 def handle (ws : List String) : String :=
   match ws with
   | "p1" :: fs :: lost :: toks =>
@@ -32,6 +43,15 @@ def handle (ws : List String) : String :=
       let d := exec o.trace
       s!"{joinSp (o.trace.map showEv)} | durable={if d.durBiz > 0 then 1 else 0} undo={if d.durUndo > 0 then 1 else 0} err={if o.error then 1 else 0} open={if d.inTx then 1 else 0} wf={if wfb clean then 1 else 0}"
     | _, _, _ => "bad-op"
+  | "atconn" :: toks =>
+    -- a connection over a sequence of statements and local transactions: for every statement at the database,
+    -- belongs to a global transaction / inside a local transaction / recorded
+    match toks.mapM parseConnOp with
+    | none => "bad-op"
+    | some ops =>
+      let seen := (Seata.AT.Conn.crun Seata.AT.Conn.cstep {} ops).2
+      let b (x : Bool) := if x then "1" else "0"
+      if seen.isEmpty then "seen=-" else s!"seen={",".intercalate (seen.map fun x => b x.belongs ++ b x.inTx ++ b x.recorded)}"
   | _ => "bad-op"
 
 end Seata.Driver.C02
